@@ -870,6 +870,16 @@ def unpack_special_typing_primitive(spec: ValueSpec) -> Optional[Expression]:
             return LiteralUnpackerBuilder().build(spec)
         elif spec.type is typing_extensions.LiteralString:
             return UnpackerRegistry.get(spec.copy(type=str))
+        elif is_self(spec.type) and spec.builder.initial_type_args:
+            # Self inside a specialised generic dataclass is that
+            # specialisation, not the bare class
+            return UnpackerRegistry.get(
+                spec.copy(
+                    type=spec.builder.cls[  # type: ignore[index]
+                        tuple(spec.builder.initial_type_args)
+                    ]
+                )
+            )
         elif is_self(spec.type):
             method_name = spec.builder.get_unpack_method_name(
                 format_name=spec.builder.format_name
